@@ -34,6 +34,10 @@ type clConn struct {
 	doID      []byte
 	doResp    []byte
 	doStarted chan struct{}
+	// L2: the next write of a listed id blocks until released (with or without error)
+	blockIDs  [][]byte
+	blockedCh chan struct{}
+	releaseCh chan bool
 }
 
 func (c *clConn) Read(b []byte) (int, error) {
@@ -56,8 +60,21 @@ func (c *clConn) Read(b []byte) (int, error) {
 
 func (c *clConn) Write(b []byte) (int, error) {
 	c.mu.Lock()
-	defer c.mu.Unlock()
 	c.writes = append(c.writes, append([]byte{}, b...))
+	if len(b) >= 20 {
+		for i, id := range c.blockIDs {
+			if bytes.Equal(id, b[8:20]) {
+				c.blockIDs = append(c.blockIDs[:i], c.blockIDs[i+1:]...)
+				c.mu.Unlock()
+				c.blockedCh <- struct{}{}
+				if ok := <-c.releaseCh; !ok {
+					return 0, errScriptedWrite
+				}
+				return len(b), nil
+			}
+		}
+	}
+	defer c.mu.Unlock()
 	if len(b) >= 20 {
 		for i, id := range c.failIDs {
 			if bytes.Equal(id, b[8:20]) {
@@ -128,6 +145,8 @@ func (a *errCloseAgent) Close() error {
 }
 
 type clientExec struct {
+	tickDone chan struct{} // L2: the collector call that is (or was) suspended in Write
+	blocked  int
 	c       *stun.Client
 	conn    *clConn
 	coll    *manualCollector
@@ -234,13 +253,19 @@ func (e *executor) clientOp(t []string) (string, bool) {
 	x := e.cl
 	switch {
 	case t[1] == "new" && len(t) == 8:
+		if x != nil {
+			x.drain()
+		}
 		if x != nil && !x.closed { // leave no goroutines behind
 			x.conn.Close()
 			x.c.Close() //nolint:errcheck
 		}
+		// every scenario starts with pools no earlier scenario has touched (a double Put would otherwise leak
+		// into every later client of this process)
+		stun.VerifResetClientPools()
 		x = &clientExec{clock: &virtualClock{}, coll: &manualCollector{}, noClose: t[4] == "1"}
 		x.conn = &clConn{inbox: make(chan []byte), readEntered: make(chan struct{}), kick: make(chan struct{}),
-			closed: make(chan struct{}), closeErr: t[7] == "1"}
+			closed: make(chan struct{}), closeErr: t[7] == "1", blockedCh: make(chan struct{}), releaseCh: make(chan bool)}
 		opts := []stun.ClientOption{stun.WithClock(x.clock), stun.WithCollector(x.coll),
 			stun.WithRTO(time.Duration(atoi(t[2]))), stun.WithAgent(&errCloseAgent{Agent: stun.NewAgent(nil), fail: t[6] == "1"})}
 		att := atoi(t[3])
@@ -298,6 +323,28 @@ func (e *executor) clientOp(t []string) (string, bool) {
 		x.clock.set(int64(atoi(t[2])))
 		x.coll.f(time.Unix(0, int64(atoi(t[2]))))
 		return x.outs(), true
+	case t[1] == "blockwrite" && len(t) == 3:
+		x.conn.mu.Lock()
+		x.conn.blockIDs = append(x.conn.blockIDs, unhex(t[2]))
+		x.conn.mu.Unlock()
+		return "ok", true
+	case t[1] == "tick2" && len(t) == 3:
+		// the collector fires on its own goroutine; its callback may come to rest inside Connection.Write
+		if x.blocked > 0 {
+			return "bad-op", true
+		}
+		x.clock.set(int64(atoi(t[2])))
+		done := make(chan struct{})
+		x.tickDone = done
+		go func() { x.coll.f(time.Unix(0, int64(atoi(t[2])))); close(done) }()
+		return x.awaitTick(), true
+	case t[1] == "release" && len(t) == 3:
+		if x.blocked == 0 {
+			return x.outs() + " blocked=0", true
+		}
+		x.blocked--
+		x.conn.releaseCh <- t[2] == "ok"
+		return x.awaitTick(), true
 	case t[1] == "clock" && len(t) == 3:
 		x.clock.set(int64(atoi(t[2])))
 		return "ok", true
@@ -506,4 +553,36 @@ func (x *clientExec) concOp(k int, seed uint64) string {
 		s += fmt.Sprintf(" unexpected-close-results=%d", other)
 	}
 	return s
+}
+
+// waits until the collector call has returned or is suspended in a blocked Write
+func (x *clientExec) awaitTick() string {
+	select {
+	case <-x.tickDone:
+	case <-x.conn.blockedCh:
+		x.blocked++
+	case <-time.After(10 * time.Second):
+		return "tick-hang"
+	}
+	if x.blocked == 0 { // the script of blocking writes applies to this collector call only
+		x.conn.mu.Lock()
+		x.conn.blockIDs = nil
+		x.conn.mu.Unlock()
+	}
+	return fmt.Sprintf("%s blocked=%d", x.outs(), x.blocked)
+}
+
+// lets every suspended Write fail so that no goroutine of an abandoned client stays behind
+func (x *clientExec) drain() {
+	for x.blocked > 0 {
+		x.blocked--
+		x.conn.releaseCh <- false
+		select {
+		case <-x.tickDone:
+		case <-x.conn.blockedCh:
+			x.blocked++
+		case <-time.After(10 * time.Second):
+			return
+		}
+	}
 }
